@@ -55,7 +55,7 @@ class C01(Profile):
     claims = {k: "C01" for k in ("rows_mismatch", "keys_mismatch", "columns_mismatch", "no_recovery")}
     eval_new = True
     recover_kinds = ("run",)
-    fault_sites = ("leaf_iter", "udf")
+    fault_sites = ("leaf_iter", "udf", "udf_stop")
     dn_rule = ("scenario = seeded iteration-engine op sequence over instrumented leaves; distinct = normalised "
                "library tree shape (operation/node types) of an evaluated entry; non-trivial = at least one of "
                "{merge/elision, max_rows==0 shortcut, join-identity shortcut, cursor interleaving} fired in that run")
@@ -315,7 +315,7 @@ class C06(Profile):
         return out
 
 
-PROC_SITES = ("hook_before", "hook_after", "db_before", "db_mid", "db_after", "leaf_iter", "stream_row")
+PROC_SITES = ("hook_before", "hook_after", "db_before", "db_mid", "db_after", "leaf_iter", "stream_row", "udf", "udf_stop")
 
 
 class C07(Profile):
@@ -343,7 +343,7 @@ class C07(Profile):
 
     def gen(self, rng, tier):
         w = {**UNARY_W, "xfer": 5, "mat": 3, "chain": 1.5, "chain_empty": 1.2, "roundtrip_empty": 0.5, "join": 0.6, "leaf": 1.5, "process": 5, "run": 1}
-        return multi_gen(rng, tier, weights=w, flags_p=0.15, special_leaf_p=0.12,
+        return multi_gen(rng, tier, weights=w, flags_p=0.15, special_leaf_p=0.12, udf_p=0.06,
                          bounds=("exact", "loose", "zeromin", "unbounded"))
 
     def dn_keys(self, run):
@@ -435,7 +435,7 @@ class C10(Profile):
         w = {"calc": 2, "proj": 2, "sel": 2, "dedup": 1, "sort": 1.5, "slice": 1.5, "xfer": 3, "mat": 5, "chain": 2,
              "chain_empty": 1.2, "roundtrip_empty": 0.4, "leaf": 1, "process": 5, "run": 4, "attach": 4, "iterate": 2, "cursor_open": 0.5, "pull": 1}
         return multi_gen(rng, tier, weights=w, flags_p=0.1, engines=rng.choice([["it"], ["sql", "it"], ["sql", "it", "it2"]]),
-                         max_ops=18 if tier == "thorough" else 12)
+                         max_ops=18 if tier == "thorough" else 12, udf_p=0.1)
 
     def dn_keys(self, run):
         nm = len(run.mat_entries)
@@ -618,7 +618,7 @@ class C18(Profile):
     level = "fault_enumeration"
     claims = {k: "C18" for k in ("eager_leaf_iteration", "multiple_starts", "iteration_not_repeatable", "rows_mismatch",
                                  "no_recovery", "payload_not_cached")}
-    fault_sites = ("leaf_iter",)
+    fault_sites = ("leaf_iter", "udf", "udf_stop")
     enumerate_faults = True
     recover_kinds = ("iterate",)
     dn_rule = ("iteration-engine trees over instrumented lazy leaves (a leaf may occur several times): lazy-only trees and trees "
